@@ -212,6 +212,12 @@ theorem line_result (spans : List Nat) (parts : List (List α × List β)) (k : 
 example : batchResults [2, 1] [([1,2,3], [10,11,12]), ([3,4], [20,21]), ([9], [30])] =
     [some ([1,2,3,4], [10,11,20,21]), some ([9], [30])] := by decide
 
+/-- The merged TEXT does not depend on the logits handed over with the parts: stitching the transcriptions alone (`no_logits`) gives the
+text of stitching transcriptions and logits together. -/
+theorem text_independent_of_logits {γ : Type} (parts : List (List α × List β)) (parts' : List (List α × List γ))
+    (h : parts.map (·.1) = parts'.map (·.1)) : (mergeAll parts).map (·.1) = (mergeAll parts').map (·.1) :=
+  Merge.mergeAll_text_indep parts parts' h
+
 /-! Non-vacuity -/
 example : mergeAll [([1,2,3,4,5], [10,11,12,13,14]), ([4,5,6], [20,21,22])] = some ([1,2,3,4,5,6], [10,11,12,13,21,22]) := by decide
 example : mergeAll [([1,2,3], [10,11,12]), ([7,8,9], [20,21,22])] = some ([1,2,3,7,8,9], [10,11,12,20,21,22]) := by decide
